@@ -388,9 +388,8 @@ func init() {
 			for fi := range fl {
 				f := fl[fi]
 				maxN := 3
-				if tier == "thorough" || fi == 0 || fi == 1 || fi == 4 || fi == 17 {
-					maxN = 4
-				}
+				maxN = 4
+				_ = fi
 				mn := maxN
 				us = append(us, core.Unit{Name: fmt.Sprintf("graphs:%s:n<=%d", f.name, mn), Cost: 10 * mn * mn * mn, Run: func(c *core.Ctx) {
 					for n := 1; n <= mn; n++ {
@@ -415,7 +414,7 @@ func init() {
 			}
 			// slices and maps of pointers
 			us = append(us, core.Unit{Name: "graphs:list-map-fields", Cost: 60, Run: func(c *core.Ctx) {
-				n := tierPick(tier, 2, 3)
+				n := 3
 				// per node: L in lists of length 0..2 over nodes, M with 0..1 entries
 				var lopts [][]int
 				lopts = append(lopts, nil)
@@ -506,7 +505,7 @@ func init() {
 				c.Cover("list-map-fields")
 			}})
 			us = append(us, core.Unit{Name: "families", Cost: 80, Run: func(c *core.Ctx) {
-				maxN := tierPick(tier, 64, 200)
+				maxN := tierPick(tier, 120, 200)
 				for n := 1; n <= maxN; n++ {
 					for _, fam := range bigFamilies(n) {
 						if !c.Begin() {
